@@ -50,7 +50,9 @@ def drivers(tier):
          "conv2d": [("c17_conv2d.cpp", "ndebug", ()), ("c17_conv2d.cpp", "asan", ("-DVD_LIGHT",))],
          "pool": [("c17_pool.cpp", "ndebug", ()), ("c17_pool.cpp", "asan", ("-DVD_LIGHT",))],
          # double and float operands in one key (built side by side); each driver answers "unsupported" to the other's ops
-         "nn": [("c17_nn.cpp", "ndebug", (), ("c17_nn.inc", "c17_show.hpp")), ("c17_nn32.cpp", "ndebug", (), ("c17_nn.inc", "c17_show.hpp"))]}
+         "nn": [("c17_nn.cpp", "ndebug", (), ("c17_nn.inc", "c17_show.hpp")), ("c17_nn32.cpp", "ndebug", (), ("c17_nn.inc", "c17_show.hpp"))],
+         # the scalar parameters (eps / ord / keepdims / axis, every wrapper and default overload) of the float routines
+         "nnp": [("c17_nnp.cpp", "ndebug", (), ("c17_nnp.inc", "c17_show.hpp")), ("c17_nnp32.cpp", "ndebug", (), ("c17_nnp.inc", "c17_show.hpp"))]}
     return d
 
 
@@ -186,6 +188,76 @@ def wide_cases(rng, n, f32):
     return out
 
 
+# ---- scalar parameters (epsilon, ord, keepdims, axis, every wrapper) of the float routines ---------------------------------
+# arrays are "I:e A:ints" = ints / 8 * 2^-e (exact); eps is a decimal literal or "default".  The data regimes are the ones where
+# the parameter decides the result: vectors with tiny norms (2^-10 .. 2^-30, i.e. 1e-3 .. 1e-9), exactly-zero rows, one operand
+# tiny and the other O(1), rows of very different magnitude inside one array, x == y / x ~ y for the distance, variance ~ eps
+# and exactly-constant slices for the norms.
+EPS_COS = ["default", "default", "1e-8", "1e-12", "1e-6", "1e-3", "0.5", "1"]
+EPS_PD = ["default", "1e-6", "1e-12", "1e-9", "1e-3", "0.5", "1"]
+EPS_NORM = ["default", "default", "1e-5", "1e-12", "1e-8", "1e-3", "0.5", "1"]
+SCALES = [0, 0, 10, 14, 17, 20, 24, 27, 30]
+
+
+def rows_array(rng, shape, ax, lo=-16, hi=16):
+    """ints whose vectors along axis ax have magnitudes 0 / 1 / 64 / 4096 times the base range"""
+    n = prod(shape); d = len(shape); mult = {}; out = []
+    for k in range(n):
+        idx = [(k // prod(shape[a + 1:])) % shape[a] for a in range(d)]
+        row = tuple(idx[:ax] + idx[ax + 1:])
+        if row not in mult: mult[row] = rng.choice([0, 1, 1, 1, 64, 4096])
+        out.append(rng.randint(lo, hi) * mult[row])
+    return out
+
+
+def SA(e, shape, data): return "I:%d %s" % (e, A(shape, data))
+
+
+def param_cases(rng, n, f32):
+    sfx = "32" if f32 else ""; out = []
+    def shp(d, lo=1, hi=3): return [rng.randint(lo, hi) for _ in range(d)]
+    for _ in range(n):
+        # cosine_similarity: both clamps matter separately when exactly one norm is below eps, or both are but not their product
+        d = rng.randint(2, 4); s = shp(d); ax = rng.randint(0, d - 1); e1, e2 = rng.choice(SCALES), rng.choice(SCALES)
+        if rng.random() < 0.4: e2 = e1
+        eps = rng.choice(EPS_COS)
+        axis = "N" if (eps == "default" and rng.random() < 0.3) else "I:%d" % (ax if rng.random() < 0.7 else ax - d)
+        if axis == "N": ax = 1
+        x = rows_array(rng, s, ax); y = rows_array(rng, s, ax)
+        if rng.random() < 0.15: y = list(x)
+        out.append("cosine_similarity_p%s %s %s %s S:%s" % (sfx, SA(e1, s, x), SA(e2, s, y), axis, eps))
+        # pairwise_distance: eps decides when x == y or x ~ y; every ord / keepdims; the all-default overload
+        d = rng.randint(1, 3); s = shp(d); e = rng.choice(SCALES); eps = rng.choice(EPS_PD)
+        x = rows_array(rng, s, d - 1); mode = rng.random()
+        y = list(x) if mode < 0.3 else ([v + rng.randint(-1, 1) for v in x] if mode < 0.6 else rows_array(rng, s, d - 1))
+        e2 = e if mode < 0.8 else rng.choice(SCALES)
+        if mode < 0.6 and e2 != e: e2 = e
+        out.append("pairwise_distance_p%s %s %s I:%d S:%s I:%d" % (sfx, SA(e, s, x), SA(e2, s, y), rng.choice([1, 2, 2, 3]), eps, rng.randint(0, 1)))
+        # norms: variance ~ eps (x scaled down), exactly-constant slices, every wrapper
+        def xdata(s):
+            m = rng.random()
+            if m < 0.15: return [rng.randint(-16, 16)] * prod(s)          # constant: variance exactly 0
+            if m < 0.3: return [rng.randint(0, 1) for _ in range(prod(s))]
+            return rdata(rng, s, -16, 16)
+        def wb(C): return "%s %s" % (SA(0, [C], rdata(rng, [C], -16, 16)), SA(0, [C], rdata(rng, [C], -16, 16)))
+        ex = rng.choice([0, 0, 4, 8, 10, 14, 20])
+        s4 = [rng.randint(1, 2), rng.randint(1, 3), rng.randint(1, 3), rng.randint(1, 3)]; C = s4[1]
+        out.append("batch_norm_p%s %s %s %s %s S:%s" % (sfx, SA(ex, s4, xdata(s4)), SA(ex, [C], rdata(rng, [C], -16, 16)),
+                                                       SA(rng.choice([0, 10, 17, 24, 34]), [C], rdata(rng, [C], 0, 24)), wb(C), rng.choice(EPS_NORM)))
+        d = rng.randint(2, 4); s = shp(d, 2, 3) if d < 4 else shp(d, 1, 3); k = rng.randint(1, d - 1); t = s[d - k:]
+        if prod(t) > 1:
+            out.append("layer_norm_p%s %s %s %s S:%s" % (sfx, SA(ex, s, xdata(s)), SA(0, t, rdata(rng, t, -16, 16)), SA(0, t, rdata(rng, t, -16, 16)), rng.choice(EPS_NORM)))
+        kind = rng.choice(["1d", "2d", "3d", "g1", "g2", "g3"]); nd = int(kind[-2] if kind[-1] == "d" else kind[-1])
+        s = [rng.randint(1, 2), rng.randint(1, 3)] + [rng.randint(1, 3) for _ in range(nd)]
+        if prod(s[2:]) > 1:
+            out.append("instance_norm_p%s S:%s %s %s S:%s" % (sfx, kind, SA(ex, s, xdata(s)), wb(s[1]), rng.choice(EPS_NORM)))
+        C = rng.randint(1, 4); g = rng.choice([x for x in range(1, C + 1) if C % x == 0])
+        s = [rng.randint(1, 2), C] + [rng.randint(1, 3) for _ in range(rng.choice([1, 2]))]
+        if prod(s[2:]) * (C // g) > 1:
+            out.append("group_norm_p%s %s I:%d %s S:%s" % (sfx, SA(ex, s, xdata(s)), g, wb(C), rng.choice(EPS_NORM)))
+    return out
+
+
 def gen_cases(rng, tier):
     out = []
     n2, n1, npool, nfl = (700, 450, 700, 40) if tier == "quick" else (9000, 5000, 8000, 400)
@@ -222,6 +294,16 @@ def gen_cases(rng, tier):
     nw = 60 if tier == "quick" else 600
     for l in wide_cases(rng, nw, False): out.append(("float_wide", l, "nn"))
     for l in wide_cases(rng, nw, True): out.append(("float_wide", l, "nn"))
+    # scalar parameters: fixed witnesses (tiny norms on both sides; explicit large eps; x == y) and the seeded stream
+    for sfx in ("", "32"):
+        out.append(("float_param", "cosine_similarity_p%s I:14 A:1,2:4,3 I:14 A:1,2:4,3 I:1 S:default" % sfx, "nnp"))
+        out.append(("float_param", "cosine_similarity_p%s I:0 A:1,2:3,4 I:0 A:1,2:24,32 I:1 S:1" % sfx, "nnp"))
+        out.append(("float_param", "cosine_similarity_p%s I:27 A:2,2:8,0,0,0 I:0 A:2,2:8,8,8,8 N S:default" % sfx, "nnp"))
+        out.append(("float_param", "pairwise_distance_p%s I:0 A:2,3:1,2,3,4,5,6 I:0 A:2,3:1,2,3,4,5,6 I:2 S:1e-3 I:1" % sfx, "nnp"))
+        out.append(("float_param", "instance_norm_p%s S:2d I:10 A:1,2,2,2:1,2,3,4,5,6,7,9 I:0 A:2:8,16 I:0 A:2:0,8 S:1e-5" % sfx, "nnp"))
+    npar = 70 if tier == "quick" else 700
+    for l in param_cases(rng, npar, False): out.append(("float_param", l, "nnp"))
+    for l in param_cases(rng, npar, True): out.append(("float_param", l, "nnp"))
     return out
 
 
@@ -263,14 +345,15 @@ def classify(line, impl, spec, model):
 _INT = re.compile(r"^-?\d+$")
 def equal(a, b):
     """shape exactly; elements exactly when both are integer literals, else relative tolerance 1e-9 (double operands) or,
-    for result lines tagged "f32" (single-precision operands, reference computed in double), 1e-3 relative + 5e-4 absolute.
+    for result lines tagged "f32" (single-precision operands, reference computed in double), 1e-3 relative + 5e-4 absolute,
+    tagged "f32r" (single precision, results of any magnitude: distances of tiny vectors) 1e-3 purely relative.
     A NaN or an infinity on one side only is a mismatch."""
     a = " ".join(a.split()); b = " ".join(b.split())
     if a == b: return True
-    f32 = a.startswith("f32 ") and b.startswith("f32 ")
-    if a.startswith("f32 ") != b.startswith("f32 "): return False
-    if f32: a = a[4:]; b = b[4:]
-    rel, ab = (1e-3, 5e-4) if f32 else (1e-9, 1e-12)
+    rel, ab = 1e-9, 1e-12
+    for tag, tol in (("f32r ", (1e-3, 1e-30)), ("f32 ", (1e-3, 5e-4))):
+        if a.startswith(tag) != b.startswith(tag): return False
+        if a.startswith(tag): a = a[len(tag):]; b = b[len(tag):]; rel, ab = tol; break
     if not (a.startswith("ok ") and b.startswith("ok ")) or ";" not in a or ";" not in b: return False
     sa, ea = a[3:].split(";", 1); sb, eb = b[3:].split(";", 1)
     if sa.strip() != sb.strip(): return False
